@@ -2369,6 +2369,31 @@ func runC11() {
 	}
 	rep.writeShards("cases_c11", "From Coq Require Import ZArith List String Ascii Floats.\nRequire Import X.Base.Num X.Base.Value X.Syn.Ast X.Syn.Tok X.Parse.Parser X.Corr.CorrC11.\nImport ListNotations.\nOpen Scope Z_scope.\nOpen Scope string_scope.\n",
 		"c11case", "c11_mismatches", cases)
+	// the verdict of parser.Parse must not depend on what was parsed before: inputs that fail INSIDE a construct
+	// (an open closure, call, index, map ...) followed by inputs that are only valid inside that construct
+	{
+		poison := []string{"all(a, {1)", "filter(a, {# > 1", "map(a, {.x]", "count(a, {#", "f(1, ", "a[1", "{a: 1", "[1, 2", "(1 + ", "a ? b", "all(a, {any(b, {#)})", "none(a, {#}", `"abc`}
+		probes := []string{"# > 1", ".x", "#", "all(a, {#}) and #", "# + .y", "1 + #", "[#]", "{a: #}", "f(#)", "a[#]", "# ? 1 : 2"}
+		for _, po := range poison {
+			for _, pr := range probes {
+				rep.Evaluations += 2
+				_, _ = parser.Parse(po)
+				if _, err := parser.Parse(pr); err == nil {
+					rep.fail(Failure{Key: "C11-history-dependent", What: "a pointer (#, .name) outside every closure is accepted after an earlier, failed parse of another input",
+						Input: map[string]string{"parsed before": po, "input": pr}, Want: "rejected (as in a fresh process)", Got: "accepted"})
+				}
+			}
+		}
+		for _, ok := range []string{"all(a, {# > 1})", "1 + 2", "a ? b : c", "f(1)[2].x"} {
+			for _, po := range poison {
+				_, _ = parser.Parse(po)
+				if _, err := parser.Parse(ok); err != nil {
+					rep.fail(Failure{Key: "C11-history-dependent", What: "a valid input is rejected after an earlier, failed parse of another input",
+						Input: map[string]string{"parsed before": po, "input": ok}, Want: "accepted", Got: err.Error()})
+				}
+			}
+		}
+	}
 	// token sequences the pinned parser accepts although no tree of the documented grammar prints to them (found by the
 	// proof of C11_parse_sound: they are exactly the `poison` shapes its scope predicate excludes)
 	for _, f := range []struct{ key, src, why string }{
